@@ -86,23 +86,29 @@ def prove(assumptions, goal, timeout_ms=None, want_model=True, second_opinion=Tr
     except z3.Z3Exception:
         pass
     s = z3.Solver()
-    s.set("timeout", timeout_ms)
     for a in assumptions:
         s.add(a)
     s.add(z3.Not(goal))
-    r = s.check()
-    dt = time.time() - t0
-    if r == z3.unsat:
-        return dict(status="discharged", backend="z3", time_s=dt)
-    if r == z3.sat:
-        m = s.model()
-        return dict(status="refuted", backend="z3", time_s=dt, model=m, model_text=_model_text(m))
+    smt2 = None
+    # z3 briefly, then a short cvc5 attempt, then z3 with the full budget: VCs mixing integer division, to_int and
+    # products of reals that z3 leaves open for its whole budget are often closed by cvc5 in milliseconds, and nearly
+    # everything else z3 decides well within the first slice (only `unsat` is taken from cvc5: its `sat` has no model
+    # we could replay)
+    first = min(timeout_ms, 2500)
+    for budget in ([first, timeout_ms] if timeout_ms > first else [first]):
+        s.set("timeout", budget)
+        r = s.check()
+        dt = time.time() - t0
+        if r == z3.unsat:
+            return dict(status="discharged", backend="z3", time_s=dt)
+        if r == z3.sat:
+            m = s.model()
+            return dict(status="refuted", backend="z3", time_s=dt, model=m, model_text=_model_text(m))
+        if smt2 is None:
+            smt2 = s.to_smt2()
+            if _cvc5(smt2, tlimit_s=4) == "unsat":
+                return dict(status="discharged", backend="cvc5", time_s=time.time() - t0)
     reason = s.reason_unknown()
-    # a short cvc5 attempt first: quantified VCs with division / to_int that z3 leaves open for minutes are often closed by
-    # cvc5 in milliseconds (only `unsat` is used; a cvc5 `sat` has no model we could replay)
-    smt2 = s.to_smt2()
-    if _cvc5(smt2, tlimit_s=4) == "unsat":
-        return dict(status="discharged", backend="cvc5", time_s=time.time() - t0)
     # retry with other seeds / the nlsat tactic: unknown answers of z3 on small nonlinear VCs are often unstable
     for attempt, (tac, seed) in enumerate([(None, 7), ("qfnra-nlsat", 0), (None, 42)] if retries else []):
         try:
@@ -132,6 +138,111 @@ def prove(assumptions, goal, timeout_ms=None, want_model=True, second_opinion=Tr
     if r2 == "unsat":
         return dict(status="discharged", backend="cvc5", time_s=dt)
     return dict(status="undecided", backend="z3+cvc5", time_s=dt, reason=f"z3: {reason}; cvc5: {r2}")
+
+
+def prove_pure_real(formula, timeout_ms=8000):
+    """Validity of `formula` as a statement of real arithmetic alone: every maximal subterm that is not built from
+    + - * / comparison and boolean connectives over Real constants / numerals (to_real of an integer term, an
+    uninterpreted application, an if-then-else ...) is replaced by a fresh real variable — a generalisation, so validity
+    of the abstraction implies validity of the instance — and the negation is given to nlsat. Never returns `refuted`."""
+    t0 = time.time()
+    cache, fresh = {}, [0]
+    arith = {z3.Z3_OP_ADD, z3.Z3_OP_SUB, z3.Z3_OP_MUL, z3.Z3_OP_DIV, z3.Z3_OP_UMINUS, z3.Z3_OP_LE, z3.Z3_OP_LT, z3.Z3_OP_GE,
+             z3.Z3_OP_GT, z3.Z3_OP_EQ, z3.Z3_OP_DISTINCT, z3.Z3_OP_AND, z3.Z3_OP_OR, z3.Z3_OP_NOT, z3.Z3_OP_IMPLIES, z3.Z3_OP_ITE,
+             z3.Z3_OP_POWER}
+
+    import functools
+    import operator
+
+    num = (z3.RealSort(), z3.IntSort())
+
+    def build(kind, ch):
+        if kind == z3.Z3_OP_ADD:
+            return functools.reduce(operator.add, ch)
+        if kind == z3.Z3_OP_MUL:
+            return functools.reduce(operator.mul, ch)
+        if kind == z3.Z3_OP_SUB:
+            return functools.reduce(operator.sub, ch)
+        if kind == z3.Z3_OP_UMINUS:
+            return -ch[0]
+        if kind == z3.Z3_OP_DIV:
+            return ch[0] / ch[1]
+        if kind == z3.Z3_OP_LE:
+            return ch[0] <= ch[1]
+        if kind == z3.Z3_OP_LT:
+            return ch[0] < ch[1]
+        if kind == z3.Z3_OP_GE:
+            return ch[0] >= ch[1]
+        if kind == z3.Z3_OP_GT:
+            return ch[0] > ch[1]
+        if kind == z3.Z3_OP_EQ:
+            return ch[0] == ch[1]
+        if kind == z3.Z3_OP_DISTINCT:
+            return z3.Distinct(*ch)
+        if kind == z3.Z3_OP_AND:
+            return z3.And(*ch)
+        if kind == z3.Z3_OP_OR:
+            return z3.Or(*ch)
+        if kind == z3.Z3_OP_NOT:
+            return z3.Not(ch[0])
+        if kind == z3.Z3_OP_IMPLIES:
+            return z3.Implies(ch[0], ch[1])
+        if kind == z3.Z3_OP_ITE:
+            return z3.If(ch[0], ch[1], ch[2])
+        raise ValueError("operator")
+
+    def gen(t):
+        fresh[0] += 1
+        return z3.Bool(f"genb!{fresh[0]}") if z3.is_bool(t) else z3.Real(f"gen!{fresh[0]}")
+
+    def ab(t):
+        """integers are generalised to reals as well (valid over the reals implies valid over the integers for
+        + - * and comparisons); integer division, mod, to_int, function applications become fresh variables"""
+        i = t.get_id()
+        if i in cache:
+            return cache[i]
+        if z3.is_quantifier(t):
+            raise ValueError("quantifier in a pure lemma")
+        if not (z3.is_bool(t) or t.sort() in num):
+            raise ValueError(f"subterm of sort {t.sort()}")
+        k = t.decl().kind() if z3.is_app(t) else None
+        if z3.is_rational_value(t) or z3.is_int_value(t):
+            r = z3.RealVal(str(t))
+        elif z3.is_true(t) or z3.is_false(t):
+            r = t
+        elif k == z3.Z3_OP_TO_REAL:
+            r = ab(t.arg(0))
+        elif z3.is_const(t) and k == z3.Z3_OP_UNINTERPRETED:
+            r = t if (z3.is_bool(t) or t.sort() == z3.RealSort()) else z3.Real("int2real!" + t.decl().name())
+        elif k in arith and k != z3.Z3_OP_DIV and all(z3.is_bool(c) or c.sort() in num for c in t.children()) \
+                and not (k in (z3.Z3_OP_EQ, z3.Z3_OP_DISTINCT) and not all(z3.is_bool(c) == z3.is_bool(t.arg(0)) for c in t.children())):
+            r = build(k, [ab(c) for c in t.children()])
+        elif k == z3.Z3_OP_DIV and t.sort() == z3.RealSort():
+            r = build(k, [ab(c) for c in t.children()])
+        else:
+            r = gen(t)  # integer division / mod / to_int / function application / power ...
+        cache[i] = r
+        return r
+
+    try:
+        g = ab(formula)
+    except (ValueError, z3.Z3Exception) as e:
+        return dict(status="undecided", backend="pure-real", time_s=time.time() - t0, reason=f"not a pure real lemma: {e}")
+    for mk_solver, nm in ((lambda: z3.Tactic("qfnra-nlsat").solver(), "z3(nlsat, pure real generalisation)"),
+                          (lambda: z3.Solver(), "z3(pure real generalisation)")):
+        try:
+            sv = mk_solver()
+            sv.set("timeout", timeout_ms)
+            sv.add(z3.Not(g))
+            r = sv.check()
+        except z3.Z3Exception:
+            continue
+        if r == z3.unsat:
+            return dict(status="discharged", backend=nm, time_s=time.time() - t0)
+        if r == z3.sat:
+            return dict(status="undecided", backend=nm, time_s=time.time() - t0,
+                        reason="the real generalisation of the lemma is not valid (the lemma is not assumed)")
+    return dict(status="undecided", backend="pure-real", time_s=time.time() - t0, reason="solver gave no answer")
 
 
 def _model_text(m):
